@@ -90,6 +90,9 @@ def record_ast(ctx):
         ctx.notes.append(f"ast hash failed: {e}")
         return sorted(PINNED_AST)
     changed = sorted(k for k in PINNED_AST if now.get(k) != PINNED_AST[k])
+    if getattr(ctx, "pinned_ast_changed", None) is not None:
+        # replay of a recorded run: its case lists were shaped by the flags of the tree it ran against
+        changed = list(ctx.pinned_ast_changed)
     ctx.extra["ast_hashes"] = now
     ctx.extra["ast_changed_since_model"] = changed
     if changed:
@@ -427,7 +430,7 @@ def unit(ctx, prop, model_ok):
         # C02 / C10 do not depend on the flag: root and layer are the same for both values (hasher_hybrid_agrees_v2)
         # and the two hybrid hashers are compared with the same setting; the single-file statements of C03 do
         ctx.disagree("Model/HasherV2.v vs hasher.py: HasherHybrid / FileHasher have no `padding` parameter",
-                     {"kind": "interface"}, "hasher_hybrid padding pl data, file_hasher hybrid padding pl data",
+                     {"kind": "interface", "case": "interface"}, "hasher_hybrid padding pl data, file_hasher hybrid padding pl data",
                      "no such parameter: the padding=False rows of the model are not tied to the code")
     with core.Scratch("v" + prop.lower() + "u_") as tmp:
         path = os.path.join(tmp, "file.bin")
@@ -439,7 +442,8 @@ def unit(ctx, prop, model_ok):
                     data = case_data(salt, b, pl, size)
                     with open(path, "wb") as fd:
                         fd.write(data)
-                    inp = {"kind": "unit", "B": b, "piece_length": pl, "size": size, "salt": salt, "patched_constant": patched}
+                    inp = {"kind": "unit", "B": b, "piece_length": pl, "size": size, "salt": salt, "patched_constant": patched,
+                           "case": f"unit:{salt}:{b}:{pl}:{size}", "ast_changed": ctx.extra.get("ast_changed_since_model", [])}
                     try:
                         res = real_all(path, pl)
                     except Exception as e:  # noqa
@@ -519,10 +523,13 @@ def small_functions(ctx, model_ok):
     for l, o, g in zip(lists, outs, got):
         ctx.traces_validated += 1
         if _unhex(o) != g:
-            ctx.disagree("Model/HasherV2.v merkle_root vs hasher.merkle_root", {"blocks": len(l)}, o, _short(g))
+            ctx.disagree("Model/HasherV2.v merkle_root vs hasher.merkle_root",
+                         {"kind": "merkle_root", "blocks": len(l), "hashes_hex": ",".join(x.hex() for x in l) or "-",
+                          "case": f"merkle_root:{len(l)}"}, o, _short(g))
     for n, o in zip(ns, nouts):
         if int(o) != next_power_2(n):
-            ctx.disagree("Model/HasherV2.v next_power_2_nat vs utils.next_power_2", {"value": n}, o, next_power_2(n))
+            ctx.disagree("Model/HasherV2.v next_power_2_nat vs utils.next_power_2",
+                         {"kind": "next_power_2", "value": n, "case": f"np2:{n}"}, o, next_power_2(n))
 
 
 def require_classes(ctx, required, minimum=2):
@@ -693,13 +700,16 @@ def build_case(tmp, salt, i, kinds, cli_versions):
     order = [comps for comps, _ in disk]
     classes = classify_tree(tree, pl, empty_dirs, order if not single else [], base)
     return {"pl": pl, "tree": tree, "root": root, "single": single, "metas": metas, "opts": opts,
-            "disk": disk, "classes": classes, "empty_dirs": empty_dirs, "i": i, "salt": salt}
+            "disk": disk, "classes": classes, "empty_dirs": empty_dirs, "i": i, "salt": salt,
+            "kinds": list(kinds), "cli_versions": list(cli_versions)}
 
 
 def case_input(case, kind):
+    # the tree, its contents, the piece length and the options are functions of (salt, index): gen_case
     return {"kind": "e2e", "creator": kind, "salt": case["salt"], "index": case["i"], "piece_length": case["pl"],
             "tree": trees.tree_summary(case["tree"]), "empty_dirs": ["/".join(d) for d in case["empty_dirs"]],
-            "options": case["opts"]}
+            "options": case["opts"], "creators_run": case["kinds"], "cli_versions": case["cli_versions"],
+            "case": f"e2e:{case['salt']}:{case['i']}:{kind}", "ast_changed": case.get("ast_changed", [])}
 
 
 # ------------------------------------------------------------------------------ C02 on one metafile
@@ -877,52 +887,198 @@ def check_c10_pair(a, b):
     return problems
 
 
-def replay_case(ctx, data, prop):
-    """re-run the failing input of a replay file; returns 1 when the failure is still there"""
-    inp = data.get("input") or {}
-    core.use_repo_in_process()
-    if inp.get("kind") == "unit":
-        b, pl, size = inp["B"], inp["piece_length"], inp["size"]
-        payload = case_data(inp["salt"], b, pl, size)
-        with core.Scratch("vreplay_") as tmp, block_size(b):
-            path = os.path.join(tmp, "file.bin")
-            with open(path, "wb") as fd:
-                fd.write(payload)
+# ------------------------------------------------------------------------------ replay
+def replay_phase_of(pid, key):
+    """position of a counted case in run() of C02 / C03 / C10: 0 small functions, 1 hashers on one file, 2 creators end to
+       end, 3 unit correspondence of the creators model"""
+    if not isinstance(key, tuple) or not key:
+        return None
+    if key[0] == "merkle_root":
+        return 0
+    if key[0] == "e2e":
+        return 2
+    if key[0] == "flt" or (key[0] == "unit" and len(key) == 7):
+        return 3
+    if key[0] == "unit":
+        return 1
+    return None
+
+
+def _replay_unit(tag, prop, inp, with_model):
+    """one file of the recorded size (contents a function of salt, B, pl, size) through every v2-capable hasher of core.REPO,
+       with the recorded block size: judged against the reference (failure) or field by field against the extracted models
+       and Spec/Bep52.v against the reference (correspondence)"""
+    b, pl, size = inp["B"], inp["piece_length"], inp["size"]
+    payload = case_data(inp["salt"], b, pl, size)
+    print(f"{tag} one file of {size} bytes, piece length {pl}, block size {b}"
+          + (" (torrentfile.hasher.BLOCK_SIZE patched)" if inp.get("patched_constant") else ""))
+    with core.Scratch("vreplay_") as tmp, block_size(b):
+        path = os.path.join(tmp, "file.bin")
+        with open(path, "wb") as fd:
+            fd.write(payload)
+        try:
             res = real_all(path, pl)
-            probs = oracle_problems(prop, res, payload, pl)
-        for kind, h, exp, obs in probs:
-            print(f"[{prop}] {kind} {HASHER_NAMES.get(h, h)} B={b} pl={pl} size={size}: expected {_short(exp)} observed {_short(obs)}")
-        print(f"[{prop}] replay: {len(probs)} problem(s)")
-        return 1 if probs else 0
-    if inp.get("kind") == "e2e":
-        kinds = [k for k in trees.CREATORS if k.startswith(("v2", "hybrid"))]
-        with core.Scratch("vreplay_") as tmp:
-            os.environ["HOME"] = tmp
-            case = build_case(tmp, inp["salt"], inp["index"], kinds, (2, 3))
-            n = 0
-            for kind, meta in case["metas"].items():
-                if isinstance(meta, BaseException):
-                    print(f"[{prop}] {kind}: raised {type(meta).__name__}: {meta}")
-                    n += 1
-                    continue
-                probs = []
-                if prop == "C02":
-                    probs = check_c02(meta, case)
-                elif prop == "C03" and ("hybrid" in kind or kind.endswith("3")):
-                    probs = check_c03(meta, case)
-                for p in probs:
-                    print(f"[{prop}] {kind}: {p}")
-                n += len(probs)
-            if prop == "C10":
-                for x, y in C10_PAIRS:
-                    if isinstance(case["metas"].get(x), dict) and isinstance(case["metas"].get(y), dict):
-                        for p in check_c10_pair(case["metas"][x], case["metas"][y]):
-                            print(f"[{prop}] {x} vs {y}: {p}")
-                            n += 1
-        print(f"[{prop}] replay: {n} problem(s)")
-        return 1 if n else 0
-    print(data)
-    return 0
+        except Exception as e:  # noqa
+            print(f"{tag} VIOLATION hasher-raised: {type(e).__name__}: {e}")
+            return 1
+        probs = oracle_problems(prop, res, payload, pl)
+    for kind, h, exp, obs in probs:
+        print(f"{tag} VIOLATION {kind} {HASHER_NAMES.get(h, h)}: expected {_short(exp)} observed {_short(obs)}")
+    if not probs:
+        print(f"{tag} judge: the hashers agree with " + ("each other" if prop == "C10" else "the reference oracle") + " on this file")
+    rc = 1 if probs else 0
+    if not with_model:
+        return rc
+    k = (pl // b).bit_length() - 1
+    outs = modelrun.run("v2all", [(str(b), str(pl), payload.hex())])
+    spec = modelrun.run("bep52", [(str(b), str(k), payload.hex())])
+    if not outs or not spec or outs[0].startswith("ERROR") or spec[0].startswith("ERROR"):
+        print(f"{tag} cannot evaluate: the extracted driver of area v2 gave no answer (./check --setup)")
+        return rc or 2
+    model = parse_v2all(outs[0])
+    n = 0
+    for h in HASHERS:
+        if res[h] is None:
+            continue
+        for f in FIELDS[prop]:
+            if f in model[h] and model[h][f] != res[h].get(f):
+                n += 1
+                print(f"{tag} DISAGREE Model/HasherV2.v vs hasher.py: {HASHER_NAMES[h]}.{f}: model {_short(model[h][f])} "
+                      f"implementation {_short(res[h].get(f))}")
+    if size:
+        sp = parse_bep52(spec[0])
+        with block_size(b):
+            gap = -size % pl
+            if prop in ("C02", "C10") and (sp["root"] != oracle.pieces_root(payload)
+                                           or sp["layer"] != b"".join(oracle.piece_layer(payload, pl))):
+                n += 1
+                print(f"{tag} DISAGREE Spec/Bep52.v bep52_root / bep52_piece_layer vs reference oracle")
+            if prop in ("C03", "C10") and (sp["padded"] != oracle.v1_pieces(payload + bytes(gap), pl)
+                                           or sp["plain"] != oracle.v1_pieces(payload, pl) or sp["pad"] != (gap or None)):
+                n += 1
+                print(f"{tag} DISAGREE Spec/Bep52.v v1_inputs_padded / pad_file_length vs reference oracle")
+    print(f"{tag} models vs implementation on the fields {', '.join(FIELDS[prop])}: "
+          + ("agree" if not n else f"{n} field(s) DISAGREE"))
+    return 1 if (n or rc) else 0
+
+
+def _replay_e2e(tag, prop, inp):
+    """content tree number `index` of the run with the recorded salt (tree, contents, piece length, options are functions of
+       the two), the creators and command lines the run used on it, judged again"""
+    kinds = inp.get("creators_run") or list(E2E_KINDS[prop])
+    cli = tuple(inp["cli_versions"]) if "cli_versions" in inp else (E2E_CLI[prop] if inp["index"] % 3 == 2 else ())
+    with core.Scratch("vreplay_") as tmp:
+        os.environ["HOME"] = tmp
+        case = build_case(tmp, inp["salt"], inp["index"], kinds, cli)
+        summary = trees.tree_summary(case["tree"])
+        if summary != inp.get("tree") or case["pl"] != inp.get("piece_length") or case["opts"] != inp.get("options"):
+            return c01.cannot("e2e", f"the generator no longer yields the recorded tree: {summary} vs {inp.get('tree')}")
+        print(f"{tag} tree {summary}, empty directories {inp.get('empty_dirs')}, piece length {case['pl']}, options {case['opts']}; "
+              f"creators {list(case['metas'])}")
+        reports = judge_e2e(prop, case)
+    for kind, i2, exp, obs in reports:
+        print(f"{tag} VIOLATION {kind} ({i2['creator']}): {obs}")
+    if not reports:
+        print(f"{tag} judge: " + {"C02": "file tree, pieces roots and piece layers equal reference BEP 52 hashing of the tree on disk",
+                                   "C03": "the v1 view and the v2 view of every hybrid metafile describe the tree on disk",
+                                   "C10": "the creators wrote identical info dictionaries and piece layers"}[prop])
+    return 1 if reports else 0
+
+
+def _replay_small(tag, inp):
+    core.use_repo_in_process()
+    if inp.get("kind") == "merkle_root" and "hashes_hex" in inp:
+        from torrentfile.hasher import merkle_root
+        l = _unlist(inp["hashes_hex"])
+        try:
+            got = _b(merkle_root(list(l)))
+        except Exception as e:  # noqa
+            print(f"{tag} DISAGREE merkle_root raised {type(e).__name__}: {e}")
+            return 1
+        outs = modelrun.run("merkle_root", [(inp["hashes_hex"],)])
+        if not outs:
+            print(f"{tag} cannot evaluate: the extracted driver of area v2 gave no answer (./check --setup)")
+            return 2
+        same = _unhex(outs[0]) == got
+        print(f"{tag} merkle_root on {len(l)} hashes: model {outs[0][:64]} implementation {_short(got)}: "
+              + ("agree" if same else "DISAGREE"))
+        return 0 if same else 1
+    if inp.get("kind") == "next_power_2" or ("value" in inp and "blocks" not in inp):
+        from torrentfile.utils import next_power_2
+        n = int(inp["value"])
+        outs = modelrun.run("np2", [(str(n),)])
+        if not outs:
+            print(f"{tag} cannot evaluate: the extracted driver of area v2 gave no answer (./check --setup)")
+            return 2
+        got = next_power_2(n)
+        print(f"{tag} next_power_2({n}): model {outs[0]} implementation {got}: " + ("agree" if int(outs[0]) == got else "DISAGREE"))
+        return 0 if int(outs[0]) == got else 1
+    return c01.cannot("disagreement of a small function", "the list of hashes was not recorded")
+
+
+def replay_case(ctx, data, prop):
+    """rebuilds the recorded case of C02 / C03 / C10, runs the hashers / creators of core.REPO, the judge and (for a
+       correspondence case) the extracted models again; 1 violated, 0 holds, 2 cannot rebuild"""
+    from props import c17
+    tag = f"[{prop} replay]"
+    kind = str(data.get("kind"))
+    inp = data.get("input") if isinstance(data.get("input"), dict) else {}
+    print(f"{tag} kind={kind} implementation under test: {core.REPO}")
+    core.use_repo_in_process()
+    rcs, again, pins = [], [], None
+
+    def later(type_, name, i, phase, index, key):
+        nonlocal pins
+        again.append({"type": type_, "name": name, "case": i.get("case"), "phase": phase, "index": index, "expect_key": key})
+        if "ast_changed" in i:
+            pins = {"pinned_ast_changed": i["ast_changed"]}
+
+    def unit_key(i):
+        return ["unit", i["B"], i["piece_length"], i["size"]]
+
+    if data.get("finding") or data.get("reproducer"):
+        rcs.append(c17.replay_finding(prop, data))
+    elif kind == "proof-or-correspondence-broken" or "what" in data:
+        dis = data.get("disagreements") or ([data] if "what" in data else [])
+        for d in dis[:5]:
+            di = d.get("input") if isinstance(d.get("input"), dict) else {}
+            what = str(d.get("what", ""))
+            if what.startswith("Model/Creators.v"):
+                rcs.append(c01.replay_creators_item(ctx, d, tag))
+                if rcs[-1] == 0 and c01.creators_target(d, 3):
+                    again.append(c01.creators_target(d, 3))
+            elif "no `padding` parameter" in what:
+                ok = has_padding_parameter()
+                print(f"{tag} HasherHybrid / FileHasher " + ("take" if ok else "DO NOT take") + " the `padding` parameter of the model")
+                rcs.append(0 if ok else 1)
+            elif what.startswith(("Model/HasherV2.v merkle_root", "Model/HasherV2.v next_power_2")):
+                rcs.append(_replay_small(tag, di))
+                if rcs[-1] == 0 and "case" in di:
+                    later("disagreement", what, di, 0, None, None)
+            elif what.startswith(("Model/HasherV2.v vs hasher.py", "Spec/Bep52.v")) and di.get("kind") == "unit":
+                rcs.append(_replay_unit(tag, prop, di, with_model=True))
+                if rcs[-1] == 0 and "case" in di:
+                    later("disagreement", what, di, 1, None, unit_key(di))
+            else:
+                rcs.append(c01.cannot("disagreement " + repr(what), "unknown correspondence"))
+        if data.get("broken"):
+            rcs += c01.replay_broken(ctx, prop, data, "props.v2_common")
+        if not dis and not data.get("broken"):
+            print(f"{tag} the file records neither a disagreement nor a broken obligation: nothing to replay")
+            rcs.append(2)
+    elif inp.get("kind") == "unit" and all(k in inp for k in ("B", "piece_length", "size", "salt")):
+        rcs.append(_replay_unit(tag, prop, inp, with_model=False))
+        if rcs[-1] == 0 and "case" in inp:
+            later("failure", kind, inp, 1, None, unit_key(inp))
+    elif inp.get("kind") == "e2e" and "salt" in inp and "index" in inp:
+        rcs.append(_replay_e2e(tag, prop, inp))
+        if rcs[-1] == 0 and "case" in inp:
+            later("failure", kind, inp, 2, inp["index"], None)
+    else:
+        rcs.append(c01.cannot(kind, "unknown kind"))
+    if again and 1 not in rcs:
+        rcs.append(c01.history(prop, data, again, "props.v2_common", pins))
+    return c01.verdict(tag, rcs)
 
 
 C10_PAIRS = [("v2-asm", "v2-class"), ("hybrid-asm", "hybrid-class"),
@@ -951,6 +1107,33 @@ def _categorise(prop, problems):
     return groups
 
 
+def judge_e2e(prop, case):
+    """what the end-to-end search reports for one built case: [(failure kind, input, expected, observed)]"""
+    out = []
+    for kind, meta in case["metas"].items():
+        inp = case_input(case, kind)
+        if isinstance(meta, BaseException):
+            out.append(("create-raised", inp, "a metafile", f"{type(meta).__name__}: {meta}"))
+            continue
+        if prop == "C02":
+            problems = check_c02(meta, case)
+        elif prop == "C03":
+            problems = check_c03(meta, case)
+        else:
+            problems = []
+        for kind_, ps in _categorise(prop, problems).items() if problems else ():
+            out.append((kind_, inp, prop + " (reference hashing of the tree as it is on disk)", ps[:6]))
+    if prop == "C10":
+        for x, y in C10_PAIRS:
+            a, b = case["metas"].get(x), case["metas"].get(y)
+            if isinstance(a, dict) and isinstance(b, dict):
+                ps = check_c10_pair(a, b)
+                if ps:
+                    out.append(("creators-differ-" + ("hybrid" if "hybrid" in y else "v2") + ("-cli" if "cli" in x else ""),
+                                case_input(case, f"{x} vs {y}"), "identical info dictionaries and piece layers", ps))
+    return out
+
+
 def e2e(ctx, prop):
     """the creators of this property on generated content trees, judged against the reference oracle / each other"""
     import shutil
@@ -964,29 +1147,13 @@ def e2e(ctx, prop):
         for i in range(n):
             cli = E2E_CLI[prop] if i % 3 == 2 else ()
             case = build_case(tmp, salt, i, E2E_KINDS[prop], cli)
+            case["ast_changed"] = ctx.extra.get("ast_changed_since_model", [])
             for c in sorted(case["classes"]):          # classes are counted once per content tree
                 ctx.classes[c] = ctx.classes.get(c, 0) + 1
-            for kind, meta in case["metas"].items():
+            for kind in case["metas"]:
                 inp = case_input(case, kind)
                 ctx.case(key=("e2e", i, kind, case["pl"], tuple(sorted(inp["tree"].items()))), classes=["creator: " + kind],
                          nontrivial=bool(case["classes"]), sample=inp if i == 1 else None)
-                if isinstance(meta, BaseException):
-                    ctx.fail("create-raised", inp, "a metafile", f"{type(meta).__name__}: {meta}")
-                    continue
-                if prop == "C02":
-                    problems = check_c02(meta, case)
-                elif prop == "C03":
-                    problems = check_c03(meta, case)
-                else:
-                    problems = []
-                for kind_, ps in _categorise(prop, problems).items() if problems else ():
-                    ctx.fail(kind_, inp, prop + " (reference hashing of the tree as it is on disk)", ps[:6])
-            if prop == "C10":
-                for x, y in C10_PAIRS:
-                    a, b = case["metas"].get(x), case["metas"].get(y)
-                    if isinstance(a, dict) and isinstance(b, dict):
-                        ps = check_c10_pair(a, b)
-                        if ps:
-                            ctx.fail("creators-differ-" + ("hybrid" if "hybrid" in y else "v2") + ("-cli" if "cli" in x else ""),
-                                     case_input(case, f"{x} vs {y}"), "identical info dictionaries and piece layers", ps)
+            for kind_, inp, exp, obs in judge_e2e(prop, case):
+                ctx.fail(kind_, inp, exp, obs)
             shutil.rmtree(os.path.join(tmp, f"c{i}"), ignore_errors=True)
